@@ -1,10 +1,12 @@
 #!/bin/sh
-# usage: tools/reseed.sh  — re-run every saved seed against its property's check (scratch evidence), one line per seed
+# usage: tools/reseed.sh ["C08 C10 .."]  — re-run every saved seed (of the listed properties, default all) against its property's check
+# (scratch evidence), one line per seed. Seeds of properties with Kani harnesses take minutes each (the crate is rebuilt for every change).
 cd /verif
 for d in seeded/*/; do
   s=$(basename $d)
   p=$(python3 -c "import json;print(json.load(open('$d/meta.json'))['property'])" 2>/dev/null)
   [ -z "$p" ] && continue
+  if [ -n "$1" ]; then case " $1 " in *" $p "*) ;; *) continue;; esac; fi
   if ! git -C /repo apply --check /verif/$d/patch.diff 2>/dev/null; then echo "$s $p: PATCH DOES NOT APPLY"; continue; fi
   git -C /repo apply /verif/$d/patch.diff
   out=$(VERIF_EVIDENCE_DIR=/var/tmp/ev_reseed ./check $p 2>&1 | grep -E "^(OK|VIOLATION|UNDECIDED)" | sort -u | head -2 | cut -c1-170 | tr '\n' ' ')
